@@ -26,6 +26,19 @@
 (*        record (exactly its own bytes; no cursor to observe)             *)
 (*  Again j kind r    the j-th object the reader returned in this history, *)
 (*        projected again NOW                                              *)
+(*  New j kind w      the caller built the j-th object of the history (its *)
+(*        running number among New / R / RO without `into`): Go type and   *)
+(*        exported fields                                                  *)
+(*  Mut j how fs w    the caller changed object j (how = "assign", a       *)
+(*        setter's name, "Put"...) touching the fields fs; w = its content *)
+(*        now                                                              *)
+(*  W ... o           (optional) the object given to the writer is object  *)
+(*        o of the history: w must be its content of this moment           *)
+(*  R / RO ... into   (optional) the reader was called ON object `into`    *)
+(*        (a receiver that already holds an earlier decode or the caller's *)
+(*        own values) instead of a new object                              *)
+(*  Another           the stream at hand has been read; a new one begins   *)
+(*        (objects and kept outputs stay)                                  *)
 (*  Create fam tag kind reports    the factory's answer for a tag          *)
 (*  TagOf fam kind tag back        the tag a type reports and what the     *)
 (*        factory creates for it                                           *)
@@ -54,6 +67,7 @@ TraceW ==
   /\ Step("W")
   /\ LET e == Trace[l] IN
        /\ Write(e.fam, e.kind, e.tag, e.w, Range(e.carried), e.bytes)
+       /\ Has(e, "o") => ObjIs(e.o, e.kind, e.w)
        /\ e.size = Len(stream')
        /\ Strict => /\ e.kind \in KnownKinds
                     /\ e.tag = TagOfKind(e.fam, e.kind)
@@ -66,8 +80,13 @@ TraceCarry == /\ Step("Carry") /\ Whole(Trace[l].out) /\ cnt' = cnt
 
 TraceR ==
   /\ Step("R")
-  /\ LET e == Trace[l] IN Read(e.kind, e.r, e.cur)
+  /\ LET e == Trace[l] IN IF Has(e, "into") THEN ReadInto(e.into, e.kind, e.r, e.cur) ELSE Read(e.kind, e.r, e.cur)
   /\ cnt' = cnt + 1
+
+\* the objects of the caller
+TraceNew == /\ Step("New") /\ LET e == Trace[l] IN New(e.kind, e.w) /\ e.j = Len(objs') /\ cnt' = cnt
+TraceMut == /\ Step("Mut") /\ LET e == Trace[l] IN Mut(e.j, Range(e.fs), e.w) /\ cnt' = cnt
+TraceAnother == /\ Step("Another") /\ Another /\ cnt' = 0
 
 \* the output handed back for the stream written so far is put aside under handle h (= their running number)
 TraceKeep == /\ Step("Keep") /\ Keep /\ Trace[l].h = Len(shelf') /\ cnt' = 0
@@ -81,7 +100,9 @@ TraceAgain == /\ Step("Again") /\ LET e == Trace[l] IN Again(e.j, e.kind, e.r) /
 TraceRO ==
   /\ Step("RO")
   /\ Len(rd) < Len(items)
-  /\ LET e == Trace[l] IN Read(e.kind, e.r, cursor + items[Len(rd) + 1].len)
+  /\ LET e == Trace[l]
+         cur == cursor + items[Len(rd) + 1].len
+     IN IF Has(e, "into") THEN ReadInto(e.into, e.kind, e.r, cur) ELSE Read(e.kind, e.r, cur)
   /\ cnt' = cnt + 1
 
 TraceEnd ==
@@ -116,6 +137,7 @@ InvLast == /\ (rd # <<>> => ReadBackAt(Len(rd)) /\ TxNormalizeAt(Len(rd)))
 
 TraceNext == (TraceReset \/ TraceW \/ TraceWhole \/ TraceCarry \/ TraceR \/ TraceEnd
               \/ TraceKeep \/ TracePeek \/ TraceAgain \/ TraceRO
+              \/ TraceNew \/ TraceMut \/ TraceAnother
               \/ TraceCreate \/ TraceTagOf \/ TraceEnd0) /\ InvLast'
 
 TraceSpec == TraceInit /\ [][TraceNext]_tvars
